@@ -33,6 +33,12 @@ def _variants(rng, scheme, items):
         t = "".join((c + (" " * rng.choice([0, 0, 0, 1, 2]))) for c in t)
         if rng.random() < 0.3:
             t = rng.choice([" ", "\t", "\n"]) + t + rng.choice([" ", "\t"])
+        if rng.random() < 0.25:
+            # every character str.split() treats as whitespace is insignificant: CR (a CRLF line end), FF, VT,
+            # the information separators, NBSP and other Unicode spaces
+            ws = rng.choice(["\r", "\r\n", "\f", "\v", "\x1c", "\x1f", "\u00a0", "\u2003", "\u3000", "\u2028"])
+            i = rng.randint(0, len(t))
+            t = t[:i] + ws + t[i:]
         outs.append(t)
     return outs
 
